@@ -11,6 +11,6 @@ import (
 func VK01FilesSeq() {
 	blobs := vmodel.SmallBlobs(3)
 	ds := NewStorage(newVFS(), "/root")
-	vmodel.SeqHistory(ds, blobs, 0, 3+vrt.Tier())
+	vmodel.SeqHistory(ds, blobs, 0, 3)
 	vrt.Cover("done")
 }
